@@ -162,6 +162,25 @@ def generate(g, tier):
         ls.append('STRING after')
         exp = [(ind + t) for ind, t in body] + ['STRING after']
         cases.append(dict(op='compile', src=dict(text='\n'.join(ls)), meta=dict(family='ignore', exp=['ok', exp, [], {}], unknown_lines=[])))
+    # the warnings of a compilation are ITS warnings: the same Compiler object (or a new one) compiled programs before that met unknown
+    # commands and then failed, or met them and succeeded; then a program of known commands only (no warning is due), or one whose
+    # unknown lines are known
+    BEFORE = ['ATTACKMODE HID\nINJECT_MOD x\n$STRING 1/0', 'HOLD a\nRELEASE a', 'WAIT_FOR_BUTTON_PRESS\nGUI toolong', 'IF TRUE\n    NOPE 1\n    VAR 1x 2',
+              'FOO\nFUNC f\n    BAR\n    RUN f\nRUN f', 'STRING fine', '$STRING (1']
+    for _ in range(count(tier, 60, 500)):
+        key = r.choice(['k', 'k', None])
+        steps = []
+        for j in range(r.randint(1, 3)):
+            if g.chance(0.2):
+                steps.append(dict(op='compile_file', compiler=key, dir=f's{j}', file='proj/main.txt', files={'proj/main.txt': 'WHATNOT 1\nSTART lib', 'proj/lib.txt': 'LIBWORD x\n' + r.choice(['GUI toolong', 'STRING ok'])}))
+            else:
+                steps.append(dict(op='compile', compiler=key, dir=f's{j}', src=dict(text=r.choice(BEFORE))))
+        if g.chance(0.5):
+            last, unk = 'STRING hello\nENTER\nDELAY 5\nIF TRUE\n    CTRL c', []
+        else:
+            last, unk = 'STRING hello\nNEWWORD a b\nENTER\n$OTHERWORD 1+1', [2, 4]
+        steps.append(dict(op='compile', compiler=key, dir='last', src=dict(text=last)))
+        cases.append(dict(op='history', steps=steps, meta=dict(family='warnings-after-others', unknown_lines=unk, nocorr=True)))
     return cases
 
 
@@ -176,6 +195,12 @@ def oracle(cases, results):
                 fs.append(fail(i, f'{m["nwarn"]} unknown commands in {m["nwarn"]} files ran, the warnings locate {sorted(files)}', 'multi-file:warnings'))
     for i, (c, r) in enumerate(zip(cases, results)):
         m = c.get('meta', {})
+        if c.get('op') == 'history':
+            if r.get('kind') != 'history' or not r.get('results'):
+                fs.append(fail(i, f'history did not run: {str(r)[:200]}', 'warnings-after-others:broken')); continue
+            r = r['results'][-1]
+            if r.get('kind') != 'ok':
+                fs.append(fail(i, f'the last compilation of the history should succeed: {r.get("kind")} {r.get("cls", r.get("exc"))}', 'warnings-after-others:kind')); continue
         if r.get('kind') != 'ok' or 'unknown_lines' not in m: continue
         got = sorted({w['arg'] for w in r['warns'] if w['kind'] == 'notExist'})
         located = sorted({w['trace'][-1][1] for w in r['warns'] if w['kind'] == 'notExist' and w.get('trace')})
